@@ -93,10 +93,35 @@ Proof.
 Qed.
 
 (* ---------- interchangeable sections ---------- *)
+(* same name, same role as a relocation section; same address and payload when the DWARF
+   reader asks for the name; same bytes when it is the debug-link carrier *)
 Definition sec_equiv (le is64 : bool) (s s' : sec) : Prop :=
-  s_name s' = s_name s /\ s_type s' = s_type s /\ s_addr s' = s_addr s /\
-  stored_payload le is64 s' = stored_payload le is64 s /\
+  s_name s' = s_name s /\ is_reloc_sec s' = is_reloc_sec s /\
+  (observed (s_name s) = true ->
+     s_addr s' = s_addr s /\ stored_payload le is64 s' = stored_payload le is64 s) /\
   (s_name s = n_debuglink -> s_stream s' = s_stream s).
+
+Lemma find_last_name n : forall l i j s, find_last_from i n l = Some (j, s) -> s_name s = n.
+Proof.
+  induction l as [|x r IH]; intros i j s H; [discriminate|].
+  cbn [find_last_from] in H. destruct (find_last_from (S i) n r) as [y|] eqn:Er.
+  - inversion H; subst. apply (IH (S i) j s Er).
+  - destruct (bytes_eqb (s_name x) n) eqn:Ex; [|discriminate].
+    inversion H; subst. apply bytes_eqb_eq. exact Ex.
+Qed.
+
+Lemma sec_named_name e n s : sec_named e n = Some s -> s_name s = n.
+Proof.
+  unfold sec_named. destruct (find_last_from 0 n (e_secs e)) as [[j t]|] eqn:E; [|discriminate].
+  cbn [option_map snd]. intros H. inversion H; subst. apply (find_last_name _ _ _ _ _ E).
+Qed.
+
+Lemma observed_slot n : In n slot_names -> observed n = true /\ observed (zname n) = true.
+Proof.
+  intros H. unfold observed. split.
+  - apply orb_true_iff. left. apply name_in_iff. exact H.
+  - apply orb_true_iff. right. apply name_in_iff. apply in_map. exact H.
+Qed.
 
 Lemma sec_equiv_refl le is64 s : sec_equiv le is64 s s.
 Proof. repeat split. Qed.
@@ -121,7 +146,7 @@ Lemma reloc_index_equiv le is64 l l' : Forall2 (sec_equiv le is64) l l' -> foral
   reloc_index_from i name l' = reloc_index_from i name l.
 Proof.
   induction 1 as [|s s' l l' Hs Hl IH]; intros i name; cbn [reloc_index_from]; [reflexivity|].
-  destruct Hs as [Hn [Ht _]]. unfold is_reloc_sec. rewrite Hn, Ht, IH. reflexivity.
+  destruct Hs as [Hn [Ht _]]. rewrite Hn, Ht, IH. reflexivity.
 Qed.
 
 Lemma has_named_equiv le is64 l l' n : Forall2 (sec_equiv le is64) l l' ->
@@ -140,11 +165,11 @@ Hypothesis Hf : e_flags e' = e_flags e.
 Hypothesis Hsecs : Forall2 (sec_equiv (e_le e) (e_is64 e)) (e_secs e) (e_secs e').
 
 Lemma equiv_read_container relocate legacy s s' :
-  sec_equiv (e_le e) (e_is64 e) s s' ->
+  sec_equiv (e_le e) (e_is64 e) s s' -> observed (s_name s) = true ->
   read_container e' relocate legacy s' = read_container e relocate legacy s.
 Proof.
-  intros [Hn [Ht [Ha [Hp _]]]]. unfold C11Container.read_container.
-  rewrite Hle, H64, Hp, Hn, Ha.
+  intros [Hn [Ht [Hp _]]] Hobs. destruct (Hp Hobs) as [Ha Hpay]. unfold C11Container.read_container.
+  rewrite Hle, H64, Hpay, Hn, Ha.
   replace (has_phantom e') with (has_phantom e) by (unfold has_phantom; rewrite Hm, Hf; reflexivity).
   unfold reloc_index. rewrite (reloc_index_equiv _ _ _ _ Hsecs). reflexivity.
 Qed.
@@ -161,16 +186,20 @@ Proof.
     cbn [option_map snd]; try exact H. destruct H as [_ H]. exact H.
 Qed.
 
-Lemma equiv_read_slot relocate n : read_slot e' relocate n = read_slot e relocate n.
+Lemma equiv_read_slot relocate n : In n slot_names ->
+  read_slot e' relocate n = read_slot e relocate n.
 Proof.
+  intros Hin. destruct (observed_slot n Hin) as [Ho Hoz].
   unfold C11Container.read_slot.
   pose proof (equiv_sec_named n) as H1.
-  destruct (sec_named e n) as [s|], (sec_named e' n) as [s'|]; try contradiction.
-  - rewrite (equiv_read_container relocate false s s' H1). reflexivity.
+  destruct (sec_named e n) as [s|] eqn:En, (sec_named e' n) as [s'|]; try contradiction.
+  - rewrite (equiv_read_container relocate false s s' H1)
+      by (rewrite (sec_named_name e n s En); exact Ho). reflexivity.
   - destruct (is_prefix p_debug n); [|reflexivity].
     pose proof (equiv_sec_named (zname n)) as H2.
-    destruct (sec_named e (zname n)) as [s|], (sec_named e' (zname n)) as [s'|]; try contradiction.
-    + rewrite (equiv_read_container relocate true s s' H2). reflexivity.
+    destruct (sec_named e (zname n)) as [s|] eqn:Ez, (sec_named e' (zname n)) as [s'|]; try contradiction.
+    + rewrite (equiv_read_container relocate true s s' H2)
+        by (rewrite (sec_named_name e _ s Ez); exact Hoz). reflexivity.
     + reflexivity.
 Qed.
 
@@ -184,19 +213,13 @@ Theorem secs_equiv_view relocate fuel fs follow :
 Proof.
   apply debug_view_ext.
   - unfold config_of. rewrite Hle, H64, Hm. reflexivity.
-  - intros n _. apply equiv_read_slot.
+  - intros n Hn. apply equiv_read_slot. exact Hn.
   - pose proof (equiv_sec_named n_debuglink) as H.
     unfold sec_named in *.
     destruct (find_last_from 0 n_debuglink (e_secs e)) as [[j s]|] eqn:E,
              (find_last_from 0 n_debuglink (e_secs e')) as [[j' s']|];
       cbn [option_map snd] in *; try contradiction; [|reflexivity].
-    destruct H as [_ [_ [_ [_ Hst]]]]. f_equal. apply Hst.
-    (* the section found under a name carries that name *)
-    clear -E. revert E. generalize 0%nat. induction (e_secs e) as [|x r IH]; intros i E; [discriminate|].
-    cbn [find_last_from] in E. destruct (find_last_from (S i) n_debuglink r) as [y|] eqn:Er.
-    + inversion E; subst. apply (IH (S i) Er).
-    + destruct (bytes_eqb (s_name x) n_debuglink) eqn:Ex; [|discriminate].
-      inversion E; subst. apply bytes_eqb_eq. exact Ex.
+    destruct H as [_ [_ [_ Hst]]]. f_equal. apply Hst. apply (find_last_name _ _ _ _ _ E).
   - unfold presence. rewrite !equiv_has_named. reflexivity.
 Qed.
 End Equiv.
@@ -243,12 +266,12 @@ Lemma gabi_section_equiv le is64 a s :
   sec_equiv le is64 s (gabi_compress le is64 a s).
 Proof.
   unfold gabi_ok. intros Hok [Hd0 Hdn]. rewrite !andb_true_iff in Hok.
-  destruct Hok as [[Hpc Hnl] Hfit].
+  destruct Hok as [[[Hpc H63] Hnl] Hfit]. apply Z.ltb_lt in H63.
   destruct (plain_complete_payload le is64 s Hpc) as [Hpay Hsz].
   unfold sec_equiv, gabi_compress. cbn [s_name s_type s_addr s_stream]. rewrite Hpay.
-  split; [reflexivity|]. split; [reflexivity|]. split; [reflexivity|]. split.
+  split; [reflexivity|]. split; [reflexivity|]. split.
   2:{ intros Hn. apply negb_true_iff in Hnl. apply bytes_eqb_neq in Hnl. contradiction. }
-  unfold C11Container.stored_payload, is_compressed. cbn [s_flags].
+  intros _. split; [reflexivity|]. unfold C11Container.stored_payload, is_compressed. cbn [s_flags].
   rewrite land_lor_bit. cbn [negb].
   unfold gabi_payload, gabi_body. cbn [s_stream s_size]. rewrite <- app_assoc.
   destruct (chdr_decode le is64 (g_reserved a) (s_size s) (g_align a) (g_blob a ++ g_tail a) Hfit)
@@ -271,6 +294,24 @@ Proof.
   - rewrite (Hdn (s_size s)) by lia. rewrite Hzp, Z.leb_refl. cbn [andb].
     rewrite zlen_firstn by lia. rewrite Z.eqb_refl.
     f_equal. f_equal. unfold p. rewrite firstn_firstn, Nat.min_id. reflexivity.
+Qed.
+
+(* ---------- keep-debug ---------- *)
+Lemma keep_debug_equiv le is64 fill i s : sec_equiv le is64 s (keep_debug_sec fill i s).
+Proof.
+  unfold keep_debug_sec. destruct (kept s) eqn:Ek; [apply sec_equiv_refl|].
+  unfold kept in Ek. rewrite !orb_false_iff in Ek. destruct Ek as [[Ho Hd] Hr].
+  unfold sec_equiv. cbn [s_name]. split; [reflexivity|]. split.
+  - rewrite Hr. reflexivity.
+  - split; [rewrite Ho; discriminate|]. intros Hn. rewrite Hn, bytes_eqb_refl in Hd. discriminate.
+Qed.
+
+Theorem keep_debug_view_invariant fill e :
+  forall fuel fs relocate follow,
+    debug_view fuel fs (T_keep_debug fill e) relocate follow = debug_view fuel fs e relocate follow.
+Proof.
+  intros fuel fs relocate follow. apply secs_equiv_view; try reflexivity.
+  unfold T_keep_debug. cbn [e_secs]. apply Forall2_map_idx. intros j s Hj. apply keep_debug_equiv.
 Qed.
 
 Definition gabi_blobs_ok (choice : nat -> option gabi_args) (e : elf) : Prop :=
